@@ -324,7 +324,7 @@ pub fn mutate(rng: &mut Rng, s: &[u8]) -> (Vec<u8>, &'static str) {
 /// Targeted spec violations: one constructor per failure class named in C04.
 pub fn targeted_invalid(rng: &mut Rng, which: usize) -> (Vec<u8>, &'static str) {
     let mut w = BitWriter::new();
-    match which % 12 {
+    match which % 15 {
         0 => { w.put(1, 1); w.put(3, 2); w.put(rng.next() as u32, 13); (w.finish(), "blocktype3") }
         1 => { w.put(1, 1); w.put(0, 2); w.align(); w.put(5, 16); w.put(!5u32 & 0xFFFF ^ 1, 16); for _ in 0..5 { w.put(65, 8); } (w.finish(), "stored_len_mismatch") }
         2 => { // HLIT = 287..288 (>286)
@@ -358,6 +358,24 @@ pub fn targeted_invalid(rng: &mut Rng, which: usize) -> (Vec<u8>, &'static str) 
             // codes: sym0 -> '0', sym1 -> '1'. Send 257 lit lens: three 1s then zeros, then 1 dist len
             for i in 0..258 { w.put(if i < 3 { 1 } else { 0 }, 1); }
             w.put(rng.next() as u32, 16); (w.finish(), "litlen_oversubscribed") }
+        12 => { // code-length code with one 1-bit symbol only (incomplete; only litlen/dist codes may be so):
+            // symbol 1 -> '0'; the unassigned '1' is followed by 7 bits, so that a decoder which lets it
+            // through and treats it as a zero run (11 + x) sees complete tables, 'A' 'A' 'A', end of block
+            w.put(1, 1); w.put(2, 2); w.put(0, 5); w.put(0, 5); w.put(15, 4);
+            let order = [16, 17, 18, 0, 8, 7, 9, 6, 10, 5, 11, 4, 12, 3, 13, 2, 14, 1, 15];
+            for &o in order.iter() { w.put(if o == 1 { 1 } else { 0 }, 3); }
+            w.put(1, 1); w.put(65 - 11, 7); w.put(0, 1);
+            w.put(1, 1); w.put(127, 7); w.put(1, 1); w.put(52 - 11, 7); w.put(0, 1); w.put(0, 1);
+            w.put(0, 1); w.put(0, 1); w.put(0, 1); w.put(1, 1); (w.finish(), "clen_single_1bit_full") }
+        13 => { // the same class with any one symbol, random continuation
+            w.put(1, 1); w.put(2, 2); w.put(rng.below(30) as u32, 5); w.put(rng.below(30) as u32, 5); w.put(15, 4);
+            let k = rng.below(19);
+            for i in 0..19 { w.put(if i == k { 1 } else { 0 }, 3); }
+            for _ in 0..12 { w.put(rng.next() as u32, 32); } (w.finish(), "clen_single_1bit") }
+        14 => { // empty code-length code
+            w.put(1, 1); w.put(2, 2); w.put(rng.below(30) as u32, 5); w.put(rng.below(30) as u32, 5); w.put(rng.below(16) as u32, 4);
+            for _ in 0..19 { w.put(0, 3); }
+            for _ in 0..12 { w.put(rng.next() as u32, 32); } (w.finish(), "clen_empty") }
         _ => { // incomplete literal code: two symbols of length 2
             w.put(1, 1); w.put(2, 2); w.put(0, 5); w.put(0, 5); w.put(15, 4);
             let order = [16, 17, 18, 0, 8, 7, 9, 6, 10, 5, 11, 4, 12, 3, 13, 2, 14, 1, 15];
